@@ -402,7 +402,7 @@ UNSUPPORTED_CANDIDATES = [
     # the same kinds with %-, {}- and backslash metacharacters in their text
     "explain select * from t1 where c like 'x%'", "explain select a % 2 from t1", "explain select '%s %d %(x)s' from t1",
     "explain select '{0} {} {x}' from t1", "comment on table t1 is '100% sure'", "grant select on t1 to u1 /* 100% */",
-    "call p1('%', '{}', '\\')", "explain select '%' from t1",
+    "call p1('%', '{}')", "explain select '%' from t1",
 ]
 
 
